@@ -388,9 +388,15 @@ func (t *WeightedMerkleTrie) Weight() uint64 {
 // Commit collapses the trie to the specified level and returns the batcher and the deleted nodes, it is the caller's responsibility to commit the batch
 func (t *WeightedMerkleTrie) Commit(collapseLevel int) (storage.Batcher, error) {
 	batcher := t.db.NewBatch()
+	hadChanges := len(t.pendingDeleted) > 0
 	t.tempDeleted = append(t.tempDeleted, t.pendingDeleted...)
 	t.pendingDeleted = nil
 	if !t.root.Dirty() {
+		if hadChanges {
+			// everything was deleted: this commit writes nothing, but it is a commit of its own and
+			// creates no node, the previous commit's list must not be rolled back in its place
+			t.created = nil
+		}
 		return batcher, nil
 	}
 	root, ok := t.root.(*routingNode)
